@@ -59,6 +59,9 @@ def get_dimensionality(
         list: A list of clusters. Each entry in the list contains the indices
             of atoms in a cluster.
     """
+    # The minimum image search expects the atoms to be inside the cell
+    system = system.copy()
+    system.wrap()
     system_1x = system
     pbc = system_1x.get_pbc()
     num_1x = system_1x.get_atomic_numbers()
